@@ -226,6 +226,36 @@ def slice_store_templates():
     for pl in ("module", "function", "class"):
         body = "d = Rec()\nd[i:j, v] = v\nd[i:j, ::v] += v\nd[..., i:] = j\nfor d[i, j:] in [v, i]:\n    pass\nx = d[:i, v:j] = j\nlog(x)\n"
         yield "C13:extslice:%s" % pl, rec + (body if pl == "module" else place(body, pl)), [("i", "int"), ("j", "int"), ("v", "int")], "-2 <= i <= 2 and -2 <= j <= 2 and -2 <= v <= 2"
+    # chained assignment: every ordered pair / triple of target kinds, the value being a bare NAME
+    # that some of the targets rebind (Python evaluates the value once; a later target must not
+    # re-read the name), a call, or a display
+    TK = {
+        "name": "x",
+        "valname": "v",
+        "star_rebinds": "(p, *v)",
+        "pair_rebinds": "[v, q]",
+        "star_other": "(r, *t)",
+        "attr": "o.a",
+        "sub": "L[0]",
+    }
+    VK = {"name": "v", "call": "list(v)", "display": "[a, b, c]"}
+    import itertools as _it
+
+    combos = list(_it.permutations(TK, 2)) + [c for c in _it.permutations(TK, 3) if "valname" in c or "star_rebinds" in c or "pair_rebinds" in c]
+    for combo in combos:
+        for vk, vexpr in VK.items():
+            if vk != "name" and len(combo) == 3:
+                continue
+            if "pair_rebinds" in combo and vk == "display":
+                continue  # [v, q] = [a, b, c] raises
+            setup = "class O: pass\no = O()\nL = [0]\n" + ("v = [a, b]\n" if "pair_rebinds" in combo else "v = [a, b, c]\n")
+            stmt = " = ".join(TK[t] for t in combo) + " = " + vexpr
+            names = ["x", "v", "p", "q", "r", "t"]
+            obs = "log([(n, globals()[n]) for n in %r if n in globals()], getattr(o, 'a', None), L)\n" % (names,)
+            ident = "log(%s)\n" % ", ".join("%s is %s" % (a_, b_) for a_, b_ in (("x", "v"), ("o.a", "L[0]"), ("x", "o.a")) if all(({"x": "name", "v": None, "o.a": "attr", "L[0]": "sub"}[z] in combo or z == "v") for z in (a_, b_)))
+            if ident == "log()\n":
+                ident = ""
+            yield "C13:chainmix:%s=%s" % ("=".join(combo), vk), setup + stmt + "\n" + obs + ident, [("a", "int"), ("b", "int"), ("c", "int")], "True"
     # index store, dict store, attribute store, nested containers, negative index
     yield (
         "C13:indexstore:list",
